@@ -285,7 +285,7 @@ class Interp:
     """Denotational evaluator; `mode` in {'django','isolated'}.
 
     Records every instance in creation (= document pre-order) order in self.instances,
-    brackets each instance's output with <idx> ...  when mark=True.
+    brackets each instance's output with U+E000 <idx> U+E001 ... U+E002 when mark=True.
     """
 
     def __init__(self, program, mode, mark=False):
@@ -408,7 +408,7 @@ class Interp:
                 else:
                     raise ModelKeyError(key)
             elif d[0] == "id":
-                data[name] = "%d" % inst_idx
+                data[name] = "%d" % inst_idx
         return data
 
     def render_comp(self, n, env, inst, prov):
@@ -434,7 +434,7 @@ class Interp:
         if spec.probes:
             out += "[" + "".join(("True" if p in fills else "False") + "," for p in spec.probes) + "]"
         if self.mark:
-            return "%d%s" % (idx, out)
+            return "\ue000%d\ue001%s\ue002" % (idx, out)
         return out
 
     # -- slots
@@ -497,13 +497,15 @@ def _alarm(signum, frame):
 
 
 def with_alarm(seconds, fn):
-    old = signal.signal(signal.SIGALRM, _alarm)
-    signal.setitimer(signal.ITIMER_REAL, seconds)
+    """Runs fn(); raises HangTimeout after `seconds` of *CPU time* of this process (ITIMER_VIRTUAL,
+    so that a loaded machine cannot fake a hang)."""
+    old = signal.signal(signal.SIGVTALRM, _alarm)
+    signal.setitimer(signal.ITIMER_VIRTUAL, seconds)
     try:
         return fn()
     finally:
-        signal.setitimer(signal.ITIMER_REAL, 0)
-        signal.signal(signal.SIGALRM, old)
+        signal.setitimer(signal.ITIMER_VIRTUAL, 0)
+        signal.signal(signal.SIGVTALRM, old)
 
 
 _SENTINEL = object()
@@ -532,7 +534,7 @@ def build_component_class(spec, dynamic=False, extra_attrs=None, module="verif_p
                     v = self.inject(key)
                 data[name] = getattr(v, field, "") if field else ",".join(sorted(v._fields))
             elif d[0] == "id":
-                data[name] = "%s" % self.id
+                data[name] = "%s" % self.id
         return data
 
     attrs = {"template": spec.source(dynamic), "get_context_data": get_context_data, "__module__": module}
